@@ -211,6 +211,9 @@ def run(rep, tier="quick", srcdir=None, only=None):
         rule_OD2(rep, prog, q)
     if want("C05-WR3"):
         rule_WR3(rep, prog)
+    if want("C05-FK"):
+        from .sync_common import rule_futex_key
+        rule_futex_key(rep, "C05", prog)
     # the other hand-off edges named by the property: completion through a hierarchy, group wait, semaphore wait
     if want("C03-MP2"):
         from . import C03
